@@ -35,6 +35,31 @@ def corrupt(rng, ent, how):
     return [pk, msg, sig]
 
 
+def crafted_undecodable(rng):
+    """an entry by the key owner whose R does not decode and whose S makes the equation hold if the z*R term is dropped:
+    S = H(R || A || M) * a.  Single verification rejects it (R is not a point); so must every batch, of any size."""
+    sd = le(rng.getrandbits(256))
+    a, _ = pyed.expand(sd)
+    A = pyed.public(sd)
+    msg = [rng.randrange(256) for _ in range(rng.randrange(0, 20))]
+    while True:
+        R = le(rng.getrandbits(255))
+        if pyed.decompress(R) is None:
+            break
+    k = pyed.challenge(R, A, msg)
+    return [list(A), msg, list(R) + le((k * a) % L)]
+
+
+def cancelling(rng, ents):
+    """two entries corrupted by +d and -d in S: both invalid on their own; they cancel iff their coefficients are equal"""
+    i, j = rng.sample(range(len(ents)), 2)
+    d = rng.randrange(1, L)
+    e2 = [[list(x) for x in e] for e in ents]
+    for p, dd in ((i, d), (j, L - d)):
+        e2[p][2] = e2[p][2][:32] + le((from_le(e2[p][2][32:]) + dd) % L)
+    return e2
+
+
 def gen(rng, quick):
     ops = [{"op": "info"}]
     sizes = [0, 1, 2, 3, 7, 94, 95] + ([] if quick else [250, 400])
@@ -61,6 +86,19 @@ def gen(rng, quick):
             ops.append({"op": "sig.verify_batch", "entries": bad + [bad[0]]})
             for lens in ([n - 1, n, n], [n, n - 1, n], [n, n, n - 1], [n - 1, n - 1, n], [0, n, n]):
                 ops.append({"op": "sig.verify_batch", "entries": ents, "lens": lens})
+    # errors that cancel under equal (or related) coefficients; the same entry twice with +d / -d
+    for n in (2, 3, 7, 95):
+        ents = honest(rng, n)
+        for _ in range(2 if n < 95 else 1):
+            ops.append({"op": "sig.verify_batch", "entries": cancelling(rng, ents)})
+        if n <= 7:
+            ops.append({"op": "sig.verify_batch", "entries": cancelling(rng, [ents[0], ents[0]] + ents[1:])})
+    # an undecodable R with an S crafted for the equation WITHOUT the z*R term, below and above the Straus / Pippenger switch
+    for n in (1, 3, 94, 95, 96):
+        ents = honest(rng, n)
+        p = rng.randrange(n)
+        ents[p] = crafted_undecodable(rng)
+        ops.append({"op": "sig.verify_batch", "entries": ents})
     # binding of the coefficients: pairs of batches that differ in exactly one input of one entry (the second of each
     # pair is marked "bind": its coefficients must all differ from the previous batch's)
     for n in (1, 2, 3, 7):
